@@ -23,7 +23,7 @@
 (* are vertices of P, x never decreases along top and bottom chain, the    *)
 (* signed areas add up to the area of P, no face witness of the octilinear *)
 (* arrangement outside P lies in a piece, every witness inside P lies in   *)
-(* at least one piece and strictly inside at most one; and the recorded    *)
+(* at least one piece and strictly inside at most one (witnesses: every lattice point of the bounding window that is not on the boundary of P); and the recorded    *)
 (* answers of intersects(coordinate) for every fine-lattice point must     *)
 (* equal Pos(P, c) # "E".  Stitching: the result covers the same witnesses *)
 (* as P, rings closed, exteriors ccw / holes cw, same exact area.          *)
@@ -104,6 +104,8 @@ JudgeStitch(e) ==
     ELSE IF \E w \in F2 : MPolyPos(w, e.p.ps) # "B" /\ In(r, w) # In(e.p.ps, w) THEN "stitch_region"
     ELSE "ok"
 
+\* every lattice point of the bounding window of the vertices (one unit of margin): the witnesses for the piece regions
+Window(V) == (SetMin({v[1] : v \in V}) - 1 .. SetMax({v[1] : v \in V}) + 1) \X (SetMin({v[2] : v \in V}) - 1 .. SetMax({v[2] : v \in V}) + 1)
 \* ---- monotone subdivision
 PieceRing(m) == m.top \o Tail(Rev(m.bot))
 XMono(cs) == \A i \in 1 .. Len(cs) - 1 : cs[i][1] <= cs[i + 1][1]
@@ -119,7 +121,7 @@ JudgeMono(e) ==
     ELSE IF e.xmono /\ \E i \in DOMAIN ms : ~XMono(ms[i].top) \/ ~XMono(ms[i].bot) THEN "not_x_monotone"
     ELSE IF \E i \in DOMAIN ms : \E j \in DOMAIN ms : Sign(Area2(PieceRing(ms[i]))) # Sign(Area2(PieceRing(ms[j]))) THEN "piece_direction"
     ELSE IF Abs(SumPieces(ms, 1)) # PolyArea2(ps, 1) THEN "pieces_area"
-    ELSE IF \E w \in F2 : LET n == Cardinality({i \in DOMAIN ms : RingPos(w, PieceRing(ms[i])) = "I"})
+    ELSE IF \E w \in Window(V) : LET n == Cardinality({i \in DOMAIN ms : RingPos(w, PieceRing(ms[i])) = "I"})
                               c == \E i \in DOMAIN ms : RingPos(w, PieceRing(ms[i])) # "E"
                               pos == MPolyPos(w, ps)
                           IN CASE pos = "I" -> ~c \/ n > 1
